@@ -553,6 +553,17 @@ def witness_dispatch_cases(rng):
                         ssig = {"canon": SH.push_data(spk), "pushdata1": push_with(spk, 0x4c), "extra_push": b"\x00" + SH.push_data(spk),
                                 "extra_op": b"\x51\x75" + SH.push_data(spk), "empty": b""}[form]
                         yield simple_spend(rng, ssig, p2sh_spk, wit, flags, "witdisp.p2sh.%s" % form)
+    # programs that are FALSE as script booleans (all zero, negative zero): the push itself leaves a false top element, so
+    # the scriptPubKey / redeem-script stage already fails with EVAL_FALSE, whatever the witness version
+    for ver in (0, 1, 2, 16):
+        for ln in (2, 20, 32, 40):
+            for prog in (b"\x00" * ln, b"\x00" * (ln - 1) + b"\x80", b"\x00" * (ln - 1) + b"\x01"):
+                spk = bytes([0x50 + ver if ver else 0, ln]) + prog
+                p2sh_spk = b"\xa9\x14" + hash160(spk) + b"\x87"
+                for wit in ([], [b"\x51"], [b"\x01", b"\x01"]):
+                    for flags in (RS.P2SH | RS.WITNESS, ALL_FLAGS & ~RS.DISCOURAGE_UPGRADABLE_WITNESS_PROGRAM, RS.P2SH, ALL_FLAGS):
+                        yield simple_spend(rng, b"", spk, wit, flags, "witdisp.false_program.bare")
+                        yield simple_spend(rng, SH.push_data(spk), p2sh_spk, wit, flags, "witdisp.false_program.p2sh")
     # witness script sizes and item sizes under P2WSH
     for n in (519, 520, 521, 3600, 9999, 10000, 10001):
         ws = b"\x51" + (b"\x00\x75" * ((n - 1) // 2)) + b"\x61" * ((n - 1) % 2)
@@ -959,6 +970,33 @@ def multi_input_cases(rng, keys, n):
                 tx["ins"][i]["script"] = push(sig_blob(keys, ki, digest, ht)) + push(pub)
         flags = rng.choice([RS.P2SH | RS.WITNESS, ALL_FLAGS, RS.P2SH | RS.WITNESS | RS.NULLFAIL])
         yield {"k": "multi", "tx": tx, "spks": spks, "amounts": amounts, "flags": flags, "src": "multi.shared_checker"}
+
+
+def embedded_sig_length_cases(rng, keys):
+    """a signature blob of an exact length around each push-opcode boundary (75/76, 255/256), pushed canonically inside
+    the legacy script it is checked in: FindAndDelete must look for exactly the canonical push of that length.
+    The blob is a strict DER signature followed by filler bytes (ignored by the lax parser) and the hash-type byte."""
+    for L in (72, 73, 74, 75, 76, 77, 78, 80, 254, 255, 256, 257, 300):
+        for ht in (1, 0x81, 3):
+            for wrapper in ("bare", "p2sh"):
+                ki = rng.randrange(len(keys.d))
+                pub = keys.sec(ki, True)
+                tail = b"\x75" + push(pub) + b"\xac"
+                tx = mk_tx(rng, b"", [], 3000, 1, 0, 0xffffffff, rng.choice([0, 1]), 2, 0)
+                r, s_ = keys.sign(ki, SH.legacy(tx, 0, tail, ht))
+                der = der_sig(r, s_)
+                if len(der) + 1 > L:
+                    continue
+                blob = der + b"\x00" * (L - len(der) - 1) + bytes([ht])
+                script = SH.push_data(blob) + tail
+                for flags in (0, RS.P2SH, RS.P2SH | RS.NULLFAIL):
+                    t2 = {"version": tx["version"], "lock_time": tx["lock_time"], "ins": [dict(i) for i in tx["ins"]], "outs": tx["outs"]}
+                    if wrapper == "bare":
+                        t2["ins"][0]["script"] = SH.push_data(blob)
+                        yield spend(t2, script, 3000, flags, "sig.embedded_len.bare")
+                    elif len(script) <= 520:
+                        t2["ins"][0]["script"] = SH.push_data(blob) + SH.push_data(script)
+                        yield spend(t2, b"\xa9\x14" + hash160(script) + b"\x87", 3000, fix_flags(flags | RS.P2SH), "sig.embedded_len.p2sh")
 
 
 def locktime_cases(rng, n):
